@@ -214,7 +214,8 @@ def check(prog, rep, tier):
                     else:
                         rep.ok("C11.path-provenance", f"{CTX}.{fname}: {what}(resolved path)")
         if sites == 0:
-            raise AnalysisError(f"C11: no file-opening call found in {CTX}.{fname}")
+            rep.bad("C11.path-provenance", f"{CTX}.{fname}", "no file access",
+                    f"{fname} no longer opens / copies the backing file at all: the filter is not backed by (or exported to) a file", f.where())
     # ---------------------------------------------------------------- (f) reload
     ld = prog.method(CTX, "_load")
     okr = True
